@@ -1,0 +1,27 @@
+// Copyright The Prometheus Authors
+// Licensed under the Apache License, Version 2.0 (the "License");
+// you may not use this file except in compliance with the License.
+// You may obtain a copy of the License at
+//
+// http://www.apache.org/licenses/LICENSE-2.0
+//
+// Unless required by applicable law or agreed to in writing, software
+// distributed under the License is distributed on an "AS IS" BASIS,
+// WITHOUT WARRANTIES OR CONDITIONS OF ANY KIND, either express or implied.
+// See the License for the specific language governing permissions and
+// limitations under the License.
+
+//go:build !verif
+
+package app
+
+import (
+	"github.com/prometheus/alertmanager/cluster"
+	"github.com/prometheus/alertmanager/nflog"
+	"github.com/prometheus/alertmanager/provider/mem"
+	"github.com/prometheus/alertmanager/silence"
+)
+
+// verifExpose is a no-op unless built with the "verif" tag.
+func verifExpose(*App, *silence.Silences, *silence.Silencer, *nflog.Log, *mem.Alerts, *reloader, *cluster.Peer) {
+}
